@@ -182,6 +182,21 @@ fn write_case(fat: [u16; 4], first: u32, size: u32, offset: u32, cursor: (u32, u
         }
         c += 1;
     }
+    // abstract allocator: hands out the volume's free clusters, lowest first
+    unsafe {
+        let mut q = [0u32; 4];
+        let mut qi = 0;
+        let mut cc = 0;
+        while cc < 4 {
+            if fat[cc] == 0 {
+                q[qi] = cc as u32 + 2;
+                qi += 1;
+            }
+            cc += 1;
+        }
+        crate::fat::vk_fatx::GALLOC_QUEUE = q;
+        crate::fat::vk_fatx::GALLOC_N = 0;
+    }
     let other = file_info(11, 0, 0, 0, (0, 0), Mode::ReadWriteAppend, 2);
     let vm = vm_with(blocks, &[file_info(10, first, size, offset, cursor, mode, 1), other]);
     let f = RawFile(Handle(10));
@@ -310,6 +325,7 @@ macro_rules! write_h {
     ($name:ident, $fat:expr, $first:expr, $size:expr, $off:expr, $cur:expr, $len:expr, $mode:expr) => {
         #[kani::proof]
         #[kani::unwind(2050)]
+        #[kani::stub(crate::fat::FatVolume::alloc_cluster, crate::fat::vk_fatx::stub_alloc_cluster)]
         fn $name() {
             write_case($fat, $first, $size, $off, $cur, $len, $mode);
         }
@@ -696,3 +712,108 @@ find_data_h!(c01_locate_from_cache, F352, 3, (512, 5), 1500);
 find_data_h!(c01_locate_eof_from_start, F352, 3, (0, 3), 1536);
 find_data_h!(c01_locate_eof_from_cache, F352, 3, (512, 5), 1536);
 find_data_h!(c01_locate_eof_backward_chain, F53, 5, (0, 5), 1024);
+
+// ------------------------------------------------------ delete_file_in_dir ---
+/// target: 0 = A (closed file) -> deleted; 2 = D (directory) -> DeleteDirAsFile;
+/// 3 = O (open file whose in-memory entry already differs from the medium:
+/// first cluster allocated but not yet flushed) -> FileAlreadyOpen; 4 = missing.
+fn delete_case(target: u8) {
+    let mut blocks = image16([0xFFFF, 5, 0xFFFF, 0xFFFF]);
+    {
+        let r = &mut blocks[G16A_ROOT as usize].contents;
+        put_slot(r, 0, &N_A, 0x20, 3, 600);
+        put_slot(r, 1, &N_R, 0x21, 2, 10);
+        put_slot(r, 2, &N_D, 0x10, 4, 0);
+        put_slot(r, 3, &N_O, 0x20, 0, 0);
+    }
+    let root0 = blocks[G16A_ROOT as usize].clone();
+    // the open file has been written to since it was opened: cluster and size differ from the medium
+    let mut open = file_info(11, 4, 77, 77, (0, 4), Mode::ReadWriteAppend, 3);
+    open.dirty = true;
+    let vm = vm_with(blocks, &[open]);
+    let name = match target {
+        0 => N_A,
+        2 => N_D,
+        3 => N_O,
+        _ => N_M,
+    };
+    let r = vm.delete_file_in_dir(RawDirectory(Handle(2)), ShortFileName { contents: name });
+    let data = vm.data.borrow();
+    let dev = vk_bd::dev(&data.block_cache);
+    match target {
+        0 => {
+            assert!(r.is_ok(), "delete: closed file not deleted");
+            let post = dev.block(G16A_ROOT);
+            assert!(post.contents[0] == 0xE5, "delete: slot not marked deleted");
+            let mut p = 1;
+            while p < 160 {
+                assert!(post.contents[p] == root0.contents[p], "dir.frame: delete changed other directory bytes");
+                p += 1;
+            }
+        }
+        2 => {
+            assert!(matches!(r, Err(Error::DeleteDirAsFile)), "modes.delete_dir: a directory must not be deleted as a file");
+            assert!(dev.nwrites.get() == 0, "modes.refused: a refused delete wrote to the medium");
+        }
+        3 => {
+            assert!(matches!(r, Err(Error::FileAlreadyOpen)), "modes.delete_open: an open file must not be deleted");
+            assert!(dev.nwrites.get() == 0, "modes.refused: a refused delete wrote to the medium");
+        }
+        _ => {
+            assert!(matches!(r, Err(Error::NotFound)), "modes.missing: deleting a missing name must report NotFound");
+            assert!(dev.nwrites.get() == 0, "modes.refused: a refused delete wrote to the medium");
+        }
+    }
+    assert!(data.open_files.len() == 1, "delete: open-file table changed");
+    kani::cover!(r.is_ok() || r.is_err());
+}
+#[kani::proof]
+#[kani::unwind(162)]
+fn c07_delete_closed_file() {
+    delete_case(0);
+}
+#[kani::proof]
+#[kani::unwind(162)]
+fn c07_delete_directory_refused() {
+    delete_case(2);
+}
+#[kani::proof]
+#[kani::unwind(162)]
+fn c07_delete_open_file_refused() {
+    delete_case(3);
+}
+#[kani::proof]
+#[kani::unwind(162)]
+fn c07_delete_missing() {
+    delete_case(4);
+}
+
+/// file_is_open (the guard of open/delete against touching an open file)
+/// identifies a file by volume + directory slot only: it must answer "open"
+/// for the slot of an open file whatever the other fields of the on-disk entry
+/// are (the in-memory entry of a written, unflushed file differs from the medium).
+#[kani::proof]
+#[kani::unwind(12)]
+fn c07_file_is_open_identity() {
+    let blocks: [Block; G16A_N] = zero_blocks();
+    let mut open = file_info(11, 4, 77, 77, (0, 4), Mode::ReadWriteAppend, 3);
+    open.dirty = true;
+    let vm = vm_with(blocks, &[open]);
+    let data = vm.data.borrow();
+    let vol: u32 = kani::any();
+    let e = DirEntry {
+        name: ShortFileName { contents: kani::any() },
+        mtime: any_timestamp(),
+        ctime: any_timestamp(),
+        attributes: Attributes::create_from_fat(kani::any()),
+        cluster: ClusterId(kani::any()),
+        size: kani::any(),
+        entry_block: BlockIdx(kani::any()),
+        entry_offset: kani::any(),
+    };
+    let r = data.file_is_open(RawVolume(Handle(vol)), &e);
+    let same_slot = vol == 1 && e.entry_block.0 == G16A_ROOT && e.entry_offset == 96;
+    assert!(r == same_slot, "modes.open_identity: a file is open iff an open handle designates the same volume and directory slot");
+    kani::cover!(r && e.cluster.0 == 0 && e.size == 0);
+    kani::cover!(!r && vol == 1);
+}
